@@ -167,6 +167,13 @@ func checkHuntMAC(c *Ctx, rule string, fn *ssa.Function) {
 	}
 	r.Add(core.Obligation{Rule: rule, Key: rule + " " + core.FuncName(fn) + " hunts 6-byte MACs only", Func: core.FuncName(fn), Pos: c.P.Pos(core.PosOf(goIns)), Status: st,
 		Basis: "the loop is started under len(addr.MAC) == 6", Detail: "the spoof loop is started without a test that the MAC has 6 bytes (guards: " + guardTexts(gs) + "): an empty or short MAC passes, the Ethernet destination of the forged frames is then left as the pooled buffer held it - possibly the MAC of a host that is not hunted"})
+	// ... and stations only: a group address (broadcast, multicast) in the hunt list makes every forged frame a broadcast
+	st = core.Proved
+	if !hasGuard(gs, `^packet\.IsUnicastMAC\(local\(\w+\)\.MAC\)$`) {
+		st = core.Violated
+	}
+	r.Add(core.Obligation{Rule: rule, Key: rule + " " + core.FuncName(fn) + " hunts unicast MACs only", Func: core.FuncName(fn), Pos: c.P.Pos(core.PosOf(goIns)), Status: st,
+		Basis: "the loop is started under IsUnicastMAC(addr.MAC)", Detail: "the spoof loop is started without a test that the MAC is a station's (guards: " + guardTexts(gs) + "): StartHunt with ff:ff:ff:ff:ff:ff sends the forged frames to every host of the LAN, hunted or not"})
 	// the places that keep the address: the start of the loop and the insertion into the hunt list
 	keepers := []ssa.Instruction{goIns}
 	core.EachInstr(fn, func(i ssa.Instruction) {
